@@ -328,6 +328,34 @@ Proof.
     + apply Forall_map. eapply Forall_impl; [|exact Hlen]. intros e He. apply enc_entry_len; exact He.
 Qed.
 
+(* The converters of requests.go: makeProtoEntries / makeEntries do not carry
+   LogEntry.Offset (a storage-local field), so it is zero on the wire and zero
+   after receipt. *)
+Definition wire_entry (e : pb_entry) : pb_entry :=
+  {| pe_index := pe_index e; pe_term := pe_term e; pe_offset := 0; pe_data := pe_data e; pe_type := pe_type e |}.
+Definition send_ae_req (r : pb_ae_req) : bytes := enc_ae_req (set_entries r (map wire_entry (aq_entries r))).
+Definition recv_ae_req (bs : bytes) : option pb_ae_req :=
+  option_map (fun r => set_entries r (map wire_entry (aq_entries r))) (dec_ae_req bs).
+
+Lemma wire_entry_wf e : wf_entry e -> wf_entry (wire_entry e).
+Proof. intros (H1 & H2 & H3 & H4 & H5). repeat split; assumption. Qed.
+
+Lemma wire_entry_idem e : wire_entry (wire_entry e) = wire_entry e.
+Proof. reflexivity. Qed.
+
+Theorem recv_send_ae_req r :
+  wf_ae_req r -> Forall (fun e => N.of_nat (length (enc_entry (wire_entry e))) < 2 ^ 64) (aq_entries r) ->
+  recv_ae_req (send_ae_req r) = Some (set_entries r (map wire_entry (aq_entries r))).
+Proof.
+  intros (H0 & H1 & H2 & H3 & H4 & H5) Hlen. unfold recv_ae_req, send_ae_req.
+  rewrite dec_enc_ae_req.
+  - cbn [option_map]. f_equal. unfold set_entries; cbn [aq_leader aq_term aq_commit aq_prev_index aq_prev_term aq_entries].
+    rewrite map_map. f_equal.
+  - repeat split; try assumption. cbn [set_entries aq_entries].
+    apply Forall_map. eapply Forall_impl; [|exact H5]. intros e He. apply wire_entry_wf; exact He.
+  - cbn [set_entries aq_entries]. apply Forall_map. exact Hlen.
+Qed.
+
 (* ---------- Configuration (two maps) ---------- *)
 Record pb_conf := { pc_members : list (bytes * bytes); pc_voters : list (bytes * bool); pc_index : N }.
 
